@@ -68,8 +68,14 @@ theorem libInv_of_LibInv {s : Schema2} {L : Lib2} (h : LibInv s L) : libInv s L 
         simp only [Lib2.trackLive]
         exact (find_isSome_iff L.tdb t).mpr (h.logLive r hr t ht)
   · unfold artOk
-    simp only [Bool.and_eq_true, List.all_eq_true, List.contains_iff_mem, List.isEmpty_iff]
-    exact ⟨⟨h.art.1, h.art.2⟩, h.prep⟩
+    simp only [Bool.and_eq_true, List.all_eq_true, List.contains_iff_mem]
+    refine ⟨⟨h.art.1, h.art.2⟩, ?_⟩
+    intro r hr
+    cases ht : r.track with
+    | none => rfl
+    | some t =>
+      simp only [Lib2.trackLive]
+      exact (find_isSome_iff L.tdb t).mpr (h.prep r hr t ht)
   · unfold infoOk; rw [h.ver]; simp
 
 /-- executable ⇒ proof-level: any library whose dump passes the check (not only one grown from the empty one) -/
@@ -81,7 +87,7 @@ theorem LibInv_of_libInv {s : Schema2} {L : Lib2} (h : libInv s L = true) : LibI
   simp only [Bool.and_eq_true, Bool.or_eq_true, List.all_eq_true, decide_eq_true_eq] at h5
   obtain ⟨⟨⟨h5a, h5b⟩, h5c⟩, h5d⟩ := h5
   unfold artOk at h6
-  simp only [Bool.and_eq_true, List.all_eq_true, List.contains_iff_mem, List.isEmpty_iff] at h6
+  simp only [Bool.and_eq_true, List.all_eq_true, List.contains_iff_mem] at h6
   exact {
     tr := inv_of_tracksWf h1
     cr := ⟨_, EngineModel.Db.V2.inv_of_wfRaw h2⟩
@@ -98,7 +104,11 @@ theorem LibInv_of_libInv {s : Schema2} {L : Lib2} (h : libInv s L = true) : LibI
       rw [ht] at this
       exact (find_isSome_iff L.tdb t).mp this
     art := h6.1
-    prep := h6.2
+    prep := by
+      intro r hr t ht
+      have := h6.2 r hr
+      rw [ht] at this
+      exact (find_isSome_iff L.tdb t).mp this
     ver := by unfold infoOk at h7; simpa using h7 }
 
 theorem libInv_iff (s : Schema2) (L : Lib2) : libInv s L = true ↔ LibInv s L :=
